@@ -226,3 +226,38 @@ func VerifC04ExpiredAlias() {
 	okG, _ = vRead("container", "get", id)
 	vAssert(!okG, "C04/a-deleted-id-can-never-be-registered-again")
 }
+
+// C04 with a Container deployed on a NAME SERVICE THAT IS NOT CONTRACT 1: the system NNS is deployed first
+// (contract 1); Container is given the address of a second name service (the probe contract "mininns") for its
+// container names. Everything Container does with names must go to the service it was configured with: the
+// alias record appears there, delete removes it there, and the name can be used again afterwards.
+func VerifC04ForeignNNS() {
+	vCommittee(1)
+	vDeploy("nns", []any{[]any{"neofs", "ops@nspcc.io"}})
+	vDeploy("netmap", false, nil, nil, nil, []any{[]byte("ContainerFee"), 0, []byte("ContainerAliasFee"), 0})
+	vDeploy("balance", false, nil, nil)
+	vDeploy("neofsid", false)
+	vDeploy("probe4")
+	vDeploy("container", false, vContractHash("netmap"), vContractHash("balance"), vContractHash("neofsid"), vContractHash("probe4"), "container")
+	owner := vAcct("owner")
+	blob, blob2 := cnrBlob("c1", 0, owner), cnrBlob("c2", 0, owner)
+	vAssume(!vEq(blob, blob2))
+	id := vSha256(blob)
+	vSign(vAlphabetAcct(), true)
+	ok, _ := vInvoke("container", "putNamed", blob, vBytes("sig", 64), vKey("owner"), []byte{}, "mycnr", "container")
+	vRequire(ok, "named-container-put-on-the-configured-name-service")
+	vAssume(ok)
+	_, r := vRead("probe4", "getRecords", "mycnr.container", 16)
+	vAssert(len(r.([]string)) == 1, "C04/alias-record-is-kept-by-the-configured-name-service")
+	_, al := vRead("container", "alias", id)
+	vAssert(al != nil && al.(string) == "mycnr.container", "C04/alias-returns-the-name-set")
+	vSign(vAlphabetAcct(), true)
+	done, _ := vInvoke("container", "delete", id, vBytes("sig", 64), []byte{})
+	vRequire(done, "named-container-deleted")
+	vAssume(done)
+	_, r = vRead("probe4", "getRecords", "mycnr.container", 16)
+	vAssert(len(r.([]string)) == 0, "C04/delete-removes-the-alias-record")
+	vSign(vAlphabetAcct(), true)
+	again, _ := vInvoke("container", "putNamed", blob2, vBytes("sig", 64), vKey("owner"), []byte{}, "mycnr", "container")
+	vAssert(again, "C04/a-name-can-be-reused-after-deletion")
+}
